@@ -101,6 +101,15 @@ impl AsyncWrite for ChoiceStream {
     fn poll_shutdown(self: Pin<&mut Self>, _cx: &mut Context<'_>) -> Poll<std::io::Result<()>> {
         Poll::Ready(Ok(()))
     }
+    /// the transport supports gathered writes (as a TCP socket does): whatever reaches it this way is on the
+    /// wire just the same
+    fn is_write_vectored(&self) -> bool {
+        true
+    }
+    fn poll_write_vectored(self: Pin<&mut Self>, cx: &mut Context<'_>, bufs: &[std::io::IoSlice<'_>]) -> Poll<std::io::Result<usize>> {
+        let all: Vec<u8> = bufs.iter().flat_map(|b| b.iter().copied()).collect();
+        self.poll_write(cx, &all)
+    }
 }
 
 impl AsyncRead for ChoiceStream {
@@ -272,7 +281,7 @@ fn run_once(s: &Scenario, prefix: &[usize]) -> RunOut {
                 break;
             }
         }
-    } else if s.dir == "write" {
+    } else if s.dir == "write" || s.dir == "write_vectored" {
         let reference = reference_stream(s, true);
         let mut expect_all: Vec<u8> = vec![];
         for (i, len) in s.msgs.iter().enumerate() {
@@ -285,10 +294,28 @@ fn run_once(s: &Scenario, prefix: &[usize]) -> RunOut {
             if i >= s.switch && reference[i] != m {
                 cipher_differs = true;
             }
-            let r = drive(async {
-                stream.write_all(&m).await?;
-                stream.flush().await
-            });
+            let r = if s.dir == "write_vectored" {
+                // the message handed over as three slices, until every byte was reported written
+                drive(async {
+                    let mut done = 0usize;
+                    while done < m.len() {
+                        let rest = &m[done..];
+                        let (a, b) = (rest.len() / 3, rest.len() * 2 / 3);
+                        let slices = [std::io::IoSlice::new(&rest[..a]), std::io::IoSlice::new(&rest[a..b]), std::io::IoSlice::new(&rest[b..])];
+                        let n = stream.write_vectored(&slices).await?;
+                        if n == 0 {
+                            return Err(std::io::Error::other("write_vectored reported 0 bytes"));
+                        }
+                        done += n;
+                    }
+                    stream.flush().await
+                })
+            } else {
+                drive(async {
+                    stream.write_all(&m).await?;
+                    stream.flush().await
+                })
+            };
             let acc = wire.lock().unwrap().accepted.clone();
             match r {
                 None => {
@@ -330,6 +357,20 @@ fn run_once(s: &Scenario, prefix: &[usize]) -> RunOut {
                 drive(async {
                     let mut b = vec![0u8; *len];
                     stream.read_exact(&mut b).await?;
+                    Ok(b)
+                })
+            } else if s.dir == "read_buf" {
+                // as Connection::read_frame_bytes does: take(missing).read_buf into one growing Vec (whose spare
+                // capacity is uninitialised memory), until the message is complete
+                drive(async {
+                    let mut b: Vec<u8> = Vec::new();
+                    while b.len() < *len {
+                        let missing = (*len - b.len()) as u64;
+                        let n = (&mut stream).take(missing).read_buf(&mut b).await?;
+                        if n == 0 {
+                            return Err(std::io::Error::from(std::io::ErrorKind::UnexpectedEof));
+                        }
+                    }
                     Ok(b)
                 })
             } else {
@@ -378,7 +419,7 @@ struct Counters {
 }
 
 fn classify(labels: &[String], s: &Scenario) -> String {
-    let side = if s.dir == "write" { "write" } else if s.dir == "write_cancel" { "write-after-abandoned-write" } else { "read" };
+    let side = if s.dir == "write" { "write" } else if s.dir == "write_vectored" { "write-vectored" } else if s.dir == "write_cancel" { "write-after-abandoned-write" } else { "read" };
     let mut kinds = vec![];
     if labels.iter().any(|l| l.contains("accept") || l.contains("deliver")) {
         kinds.push("partial");
@@ -457,7 +498,7 @@ pub fn run(cli: Cli) -> ! {
     let thorough = cli.tier.thorough();
     let secrets = ["00000000000000000000000000000000", "ffffffffffffffffffffffffffffffff", &hex(b"verysecuresecret"), "000102030405060708090a0b0c0d0e0f"];
     let mut jobs: Vec<(Scenario, usize)> = vec![];
-    for dir in ["write", "write_cancel", "read_exact", "read_take"] {
+    for dir in ["write", "write_cancel", "write_vectored", "read_exact", "read_take", "read_buf"] {
         for (si, sec) in secrets.iter().enumerate() {
             // complete exploration (every answer sequence, at most one Pending between progress steps)
             let small: Vec<Vec<usize>> = if thorough {
